@@ -30,6 +30,7 @@ MODELS = {
     "tinyjambu_clean": {"zero": (0, 1)},
     "tinyjambu_hkdf_extract": {},
     "tinyjambu_hkdf_expand": {},
+    "tinyjambu_hkdf_free": {},
     "tinyjambu_prng_reseed": {"havoc": 0},
     "tinyjambu_prng_init_user": {},
     "tinyjambu_trng_generate": {"out": (0, 32, "TRNG")},
@@ -242,9 +243,12 @@ def check_hmac(ck_ob, mod, label):
     for cname, (p, rest) in res.items():
         e0 = inner[cname]
         want = bytes_sym("DIGEST", e0[1], 32)
-        ok = len(rest) == 3 and [e[2] for e in rest] == ["tinyjambu_hash_update", "tinyjambu_hash_finalize", "tinyjambu_clean"]
-        ok = ok and rest[0][3][1] == e0[3][1] and rest[0][3][2] == "32" and rest[0][4] is not None and tuple(map(tuple, rest[0][4])) == want \
-            and rest[1][3] == (repr(Lf.s(("arg", 0))), OUT) and rest[2][3][0] == e0[3][1] and rest[2][3][1] == "32"
+        ok = len(rest) == 3 and [e[2] for e in rest] in (["tinyjambu_hash_update", "tinyjambu_hash_finalize", "tinyjambu_clean"], ["tinyjambu_hash_update", "tinyjambu_clean", "tinyjambu_hash_finalize"])
+        if ok:
+            fin_ = [e for e in rest if e[2] == "tinyjambu_hash_finalize"][0]
+            cln_ = [e for e in rest if e[2] == "tinyjambu_clean"][0]        # the local digest may be wiped as soon as it has been absorbed
+            ok = rest[0][3][1] == e0[3][1] and rest[0][3][2] == "32" and rest[0][4] is not None and tuple(map(tuple, rest[0][4])) == want \
+                and fin_[3] == (repr(Lf.s(("arg", 0))), OUT) and cln_[3][0] == e0[3][1] and cln_[3][1] == "32"
         ck_ob(ok, "SEQ", f.name, "finalize-outer(%s)[%s]" % (cname, label), "outer hash: key block (0x5C), update(inner digest, 32), finalize(out); local digest wiped",
               "after the outer key block: %s (expected update(inner digest,32); finalize(out); clean(local,32))" % [(e[2], e[3]) for e in rest], relpath("%s:%d" % (f.file, f.line)))
         n += 1
@@ -253,12 +257,15 @@ def check_hmac(ck_ob, mod, label):
     ex = irx.Exec(f, Handler(), havoc="auto", auto=True)
     ps = ex.run()
     ev = calls(ps[0]) if len(ps) == 1 else []
-    ok = [e[2] for e in ev] == ["tinyjambu_hmac_init", "tinyjambu_hmac_update", "tinyjambu_hmac_finalize", "tinyjambu_clean"]
+    nm_ = [e[2] for e in ev]
+    if nm_[:3] != ["tinyjambu_hmac_init", "tinyjambu_hmac_update", "tinyjambu_hmac_finalize"] or len(nm_) != 4 or nm_[3] not in ("tinyjambu_clean", "tinyjambu_hmac_free"):
+        raise Broken("tinyjambu_hmac (one-shot) is not written as init; update; finalize; wipe on a local state (calls %s): this shape is not analysed" % nm_)
+    ok = True
     if ok:
         st = ev[0][3][0]
         K, KL = repr(Lf.s(("arg", 1))), repr(Lf.s(("n", 2)))
         ok = st.startswith("alloca") and ev[0][3] == (st, K, KL) and ev[1][3] == (st, repr(Lf.s(("arg", 3))), repr(Lf.s(("n", 4)))) and ev[2][3] == (st, K, KL, repr(Lf.s(("arg", 0)))) \
-            and ev[3][3][0] == st and ev[3][3][1] == str(mod.typedef_size("tinyjambu_hmac_state_t"))
+            and ev[3][3][0] == st and (nm_[3] == "tinyjambu_hmac_free" or ev[3][3][1] == str(mod.typedef_size("tinyjambu_hmac_state_t")))
     ck_ob(ok, "SEQ", f.name, "one-shot[%s]" % label, "hmac(out,key,keylen,in,inlen) = init(key); update(in); finalize(key,out); wipe of the local state",
           "one-shot HMAC is %s" % [(e[2], e[3]) for e in ev], relpath("%s:%d" % (f.file, f.line)))
     return n + 3
@@ -302,12 +309,17 @@ def check_hkdf(ck_ob, mod, label):
             seen.add("ok")
             st = ev[0][3][0] if ev else ""
             A = lambda nm: repr(Lf.s(irx.argsym(f, f.param_index(nm))))
-            okseq = [e[2] for e in ev] == ["tinyjambu_hkdf_extract", "tinyjambu_hkdf_expand", "tinyjambu_clean"] and st.startswith("alloca") \
+            nm_ = [e[2] for e in ev]
+            if nm_[:2] != ["tinyjambu_hkdf_extract", "tinyjambu_hkdf_expand"] or len(nm_) != 3 or nm_[2] not in ("tinyjambu_clean", "tinyjambu_hkdf_free"):
+                raise Broken("tinyjambu_hkdf (one-shot) is not written as extract; expand; wipe on a local state (calls %s): this shape is not analysed" % nm_)
+            okseq = st.startswith("alloca") \
                 and ev[0][3] == (st, A("key"), A("keylen"), A("salt"), A("saltlen")) and ev[1][3] == (st, A("info"), A("infolen"), A("out"), A("outlen")) \
-                and ev[2][3] == (st, str(mod.typedef_size("tinyjambu_hkdf_state_t")))
+                and (ev[2][3] == (st, str(mod.typedef_size("tinyjambu_hkdf_state_t"))) or (nm_[2] == "tinyjambu_hkdf_free" and ev[2][3] == (st,)))
             ck_ob(okseq and rng[1] == 8160 and rc == 0, "CAP", f.name, "accept-up-to-8160[%s]" % label, "outlen <= 8160: extract(key,salt); expand(info,out,outlen); wipe; returns 0",
                   "accepting class is outlen <= %s with events %s returning %s" % (rng[1], [(e[2], e[3]) for e in ev], rc), w0)
-    ck_ob(seen == {"refuse", "ok"}, "CAP", f.name, "two-classes[%s]" % label, "exactly the two classes <= 8160 / > 8160", "classes found: %s" % sorted(seen), w0)
+    if seen != {"refuse", "ok"}:
+        raise Broken("tinyjambu_hkdf (one-shot): path classes %s instead of the two classes outlen <= 8160 / > 8160: this shape is not analysed" % sorted(seen))
+    ck_ob(True, "CAP", f.name, "two-classes[%s]" % label, "exactly the two classes <= 8160 / > 8160", "", w0)
     n += 3
     # ---- extract
     f = mod.fn("tinyjambu_hkdf_extract")
@@ -320,9 +332,17 @@ def check_hkdf(ck_ob, mod, label):
         ev = calls(p)
         A = lambda nm: repr(Lf.s(irx.argsym(f, f.param_index(nm))))
         h = ev[0][3][0] if ev else ""
-        ok = [e[2] for e in ev] == ["tinyjambu_hmac_init", "tinyjambu_hmac_update", "tinyjambu_hmac_finalize", "tinyjambu_hmac_free"] and h.startswith("alloca") \
-            and ev[0][3] == (h, A("salt"), A("saltlen")) and ev[1][3] == (h, A("key"), A("keylen")) \
-            and ev[2][3] == (h, A("salt"), A("saltlen"), repr(Lf({ST: 1, 1: PRK}) if PRK else Lf.s(ST))) and ev[3][3] == (h,)
+        nm_ = [e[2] for e in ev]
+        PRKP = repr(Lf({ST: 1, 1: PRK}) if PRK else Lf.s(ST))
+        if nm_ == ["tinyjambu_hmac"]:
+            # PRK = the one-shot HMAC (decided as init; update; finalize; wipe under C12) with key = salt, message = IKM
+            ok = ev[0][3] == (PRKP, A("salt"), A("saltlen"), A("key"), A("keylen"))
+        elif nm_ == ["tinyjambu_hmac_init", "tinyjambu_hmac_update", "tinyjambu_hmac_finalize", "tinyjambu_hmac_free"]:
+            ok = h.startswith("alloca") \
+                and ev[0][3] == (h, A("salt"), A("saltlen")) and ev[1][3] == (h, A("key"), A("keylen")) \
+                and ev[2][3] == (h, A("salt"), A("saltlen"), PRKP) and ev[3][3] == (h,)
+        else:
+            raise Broken("tinyjambu_hkdf_extract is neither the one-shot HMAC nor init; update; finalize; free on a local state (calls %s): this shape is not analysed" % nm_)
         okc = p.lfmem.get((ST, CNT, 1)) == Lf.c(1) and p.lfmem.get((ST, POSN, 1)) == Lf.c(32)
         ck_ob(ok, "SEQ", f.name, "extract[%s]" % label, "PRK = HMAC(salt, IKM): init(salt); update(key); finalize(salt -> prk); free",
               "extract is %s" % [(e[2], e[3]) for e in ev], w0)
@@ -534,7 +554,12 @@ def check_pbkdf2(ck_ob, mod, label):
     A = {nm: irx.argsym(f, f.param_index(nm)) for nm in ("out", "outlen", "password", "passwordlen", "salt", "saltlen", "count")}
     PW, PL, SALT, SL, COUNT = (repr(Lf.s(A[k])) for k in ("password", "passwordlen", "salt", "saltlen", "count"))
 
+    nviol = [0]
+    unrec = []
+
     def c(rule, cond, construct, ok_, bad_, where=None):
+        if not cond:
+            nviol[0] += 1
         return ck_ob(cond, rule, f.name, "%s[%s]" % (construct, label), ok_, bad_, where or w0)
 
     def wp(phi, ini):
@@ -658,7 +683,8 @@ def check_pbkdf2(ck_ob, mod, label):
                     inner = p.end[1]
                     cphi = [f.insts[i] for i in f.blocks[inner].insts if f.insts[i].op == "phi" and not (f.insts[i].get("ty") or "").endswith("*")]
                     ini = [p.env.get(("init", I.id)) for I in cphi]
-                    c("F", Lf.s(A["count"]) in ini, "chain-init(%s)" % ("full" if full else "last"), "the chain loop starts from the caller's count", "chain loop counter starts at %s" % ini)
+                    c("F", _chain_trips_ok(f, inner, f.param_index("count")), "chain-init(%s)" % ("full" if full else "last"),
+                      "the chain loop runs count - 2 times (ScalarEvolution trip count), whatever the direction of its counter", "chain loop counter starts at %s; trip count %s" % (ini, _loop(f, inner).get("btc_text")))
                     n += 5
                     continue
             else:
@@ -689,10 +715,9 @@ def check_pbkdf2(ck_ob, mod, label):
                 if len(offs) == 32 and all(tuple(cells[o]) == tuple(gf2.wxor(list(hashbyte(p, ob, o)), list(mac[i]))) for i, o in enumerate(offs)):
                     okx = True
             c("F", okx, "chain-xor", "T ^= U(j+1) over all 32 bytes", "the chained PRF output is not XORed into all 32 bytes of T (changed objects: %s)" % {k_: len(v_) for k_, v_ in changed.items()})
-            cnt = ("hd", cphi[0].id) if cphi else None
-            okg = cnt is not None and ex._range(p, Lf.s(cnt))[0] == 3 and p.env.get(("back", cphi[0].id)) == Lf({cnt: 1, 1: -1})
-            c("F", okg, "chain-count", "the chain loop runs while count > 2 and decrements by one: count - 2 iterations, count PRFs in total",
-              "chain loop guard/decrement differ (range low %s, back %s): the number of PRF iterations is not the iteration count" % (ex._range(p, Lf.s(cnt))[0] if cnt else None, p.env.get(("back", cphi[0].id)) if cphi else None))
+            okg = _chain_trips_ok(f, inner, f.param_index("count"))
+            c("F", okg, "chain-count", "the chain loop body runs count - 2 times (ScalarEvolution: %s): count PRFs in total" % _loop(f, inner).get("btc_text"),
+              "the chain loop body runs %s times instead of count - 2: the number of PRF iterations is not the iteration count" % _loop(f, inner).get("btc_text"))
             n += 3
             continue
         if names[:1] == ["tinyjambu_hmac_free"]:
@@ -703,7 +728,12 @@ def check_pbkdf2(ck_ob, mod, label):
             full = remc2 is None
             n += _pb_tail(c, f, ex, p, ev[1:], outs, None, None, cur, rem, pcur, remphi, bnphi, BN, full, remc2, ev[0][3][0], from_chain=True, arr=arr)
             continue
-        c("F", False, "unexpected-segment", "", "unexpected event sequence %s (end %s)" % (names[:5], p.end[0]))
+        unrec.append("%s (end %s)" % (names[:5], p.end[0]))
+    if unrec and not nviol[0]:
+        # a path class whose call sequence is none of the recognised segments, and nothing recognised is wrong: another shape
+        raise Broken("tinyjambu_pbkdf2: path class(es) with an unrecognised call sequence %s: this shape is not analysed" % unrec[:2])
+    if unrec:
+        c("F", False, "unexpected-segment", "", "besides the deviations reported, unexpected event sequence %s" % unrec[:2])
     if not {"count<=1", "count>1", "chain", "chain-exit"} <= seen:
         raise Broken("tinyjambu_pbkdf2: segment classes found %s, expected count <= 1, count > 1, a generic chain iteration and the chain exit: unrecognised shape" % sorted(seen))
     c("F", True, "classes", "all segment classes found (count <= 1, count > 1, generic chain iteration, chain exit)", "")
@@ -1147,3 +1177,60 @@ def _check_be_inc(newb, X):
         if got != ((x + 1) & 0xFFFFFFFF):
             return False, "for block number %#010x the next one is %#010x instead of %#010x" % (x, got, (x + 1) & 0xFFFFFFFF)
     return True, None
+
+
+def _loop(f, header):
+    for l in f.loops:
+        if l["header"] == header:
+            return l
+    raise Broken("loop with header %s not found" % header)
+
+
+def _scev_affine(t):
+    """ScalarEvolution tree -> {symbol: coefficient, 1: constant} or None"""
+    k = t.get("k")
+    if k == "c":
+        v = int(t["v"])
+        w = t.get("bits") or t.get("w") or 64
+        if v >= 1 << (w - 1):
+            v -= 1 << w
+        return {1: v}
+    if k == "u":
+        return {tuple(t["v"]): 1}
+    if k == "add":
+        out = {}
+        for o in t["ops"]:
+            a = _scev_affine(o)
+            if a is None:
+                return None
+            for s_, c_ in a.items():
+                out[s_] = out.get(s_, 0) + c_
+        return {s_: c_ for s_, c_ in out.items() if c_}
+    if k == "mul" and len(t["ops"]) == 2:
+        a, b = _scev_affine(t["ops"][0]), _scev_affine(t["ops"][1])
+        if a is None or b is None:
+            return None
+        for x, y in ((a, b), (b, a)):
+            if set(x) <= {1}:
+                return {s_: c_ * x.get(1, 0) for s_, c_ in y.items() if c_ * x.get(1, 0)}
+    return None
+
+
+def _chain_trips_ok(f, header, count_param):
+    """three-valued through Broken: the body of the chain loop runs exactly count - 2 times"""
+    L = _loop(f, header)
+    t = L.get("btc") or {}
+    a = _scev_affine(t)
+    if a is None and t.get("k") == "add" and len(t["ops"]) == 2:
+        # count - umin(k, count): the body runs count - k times once count >= k (and not at all below)
+        for x, y in ((t["ops"][0], t["ops"][1]), (t["ops"][1], t["ops"][0])):
+            if _scev_affine(x) == {("a", count_param): 1} and y.get("k") == "mul" and len(y["ops"]) == 2:
+                for u, v in ((y["ops"][0], y["ops"][1]), (y["ops"][1], y["ops"][0])):
+                    if _scev_affine(u) == {1: -1} and v.get("k") == "umin" and len(v["ops"]) == 2:
+                        ks = [_scev_affine(o) for o in v["ops"]]
+                        consts = [z[1] for z in ks if z is not None and set(z) == {1}]
+                        if len(consts) == 1 and {("a", count_param): 1} in ks:
+                            return consts[0] == 2
+    if a is None:
+        raise Broken("tinyjambu_pbkdf2: the trip count of the PRF chain loop is not an affine function ScalarEvolution can give (%s): unrecognised shape" % L.get("btc_text"))
+    return a == {("a", count_param): 1, 1: -2}
